@@ -797,6 +797,7 @@ class Dict(dict, base.Symbolic, pg_typing.CustomTyping):
     if base.treats_as_sealed(self):
       raise base.WritePermissionError('Cannot clear a sealed Dict.')
     value_spec = self._value_spec
+    items = dict(self.sym_items())
     self._value_spec = None
     for value in self.sym_values():
       self._detach(value)
@@ -804,7 +805,14 @@ class Dict(dict, base.Symbolic, pg_typing.CustomTyping):
     self._invalidate_content_caches()
 
     if value_spec:
-      self.use_value_spec(value_spec, self._allow_partial)
+      try:
+        self.use_value_spec(value_spec, self._allow_partial)
+      except Exception:
+        # A rejected clear leaves the Dict (and its value spec) as it was.
+        super().clear()
+        super().update(items)
+        self._value_spec = value_spec
+        raise
 
   def setdefault(self, key: Union[str, int], default: Any = None) -> Any:
     """Sets default as the value to key if not present."""
